@@ -37,7 +37,8 @@ Fixpoint kinds_eqb (a b : list lkind) : bool :=
   end.
 
 (* the notifications from the first Connecting on, for a channel that is enabled, meets the attempts in order (after a
-   disable it is enabled again at once) and is shut down while the attempt after the last one is being made *)
+   disable it is enabled again at once) and is shut down while the attempt after the last one is being made (that
+   attempt meets a silent peer: the shutdown arrives while its handshake is pending) *)
 Fixpoint expected (l : list attempt) : list lkind :=
   match l with
   | [] => [KConnecting; KShutdown]
